@@ -356,7 +356,7 @@ def run(ctx, drv):
         obj = json.load(open(f))
         check_case(ctx, drv, obj.get("replay", obj)["case"])
         ctx.count("corpus")
-    ncases = 300 if ctx.tier == "quick" else 5000
+    ncases = 1200 if ctx.tier == "quick" else 20000
     for _ in range(ncases):
         if ctx.time_left() < 5:
             break
